@@ -49,6 +49,15 @@ def firstDiff (m i : List Event) (n : Nat := 0) : Option (Nat × String) :=
 def choicesOf (tr : List Event) : List (Nat × Nat) :=
   tr.filterMap fun | .flushB k q _ _ _ => some (k, q) | _ => none
 
+/-- The flush-count clause of C04 is a theorem (`C04_flush_count`) for NonAsync-free programs while the stack guard has
+    not fired; the machine-checked counterexamples `C04b_nonasync_counterexample` / `C04b_guard_counterexample` show that
+    the count legitimately differs otherwise, so the clause is not evaluated on such runs. -/
+def specFor (prop : String) (cx : Spec.Ctx) (guard : Bool) (tr : List Event) : Option (Nat × String) :=
+  match Spec.spec prop cx tr with
+  | some (i, msg) =>
+    if msg == "flush-count-differs-from-longest-chain" && (cx.hasNonAsync || guard) then none else some (i, msg)
+  | none => none
+
 def handle (id : Nat) (hdr : List Sexp) (body : List Sexp) : String :=
   match hdr with
   | [.atom prop, c, t] =>
@@ -63,10 +72,10 @@ def handle (id : Nat) (hdr : List Sexp) (body : List Sexp) : String :=
       let cx := Spec.mkCtx cfg tops
       let c := match corr with | none => (if stuck.isEmpty then "ok" else "diff") | some _ => "diff"
       let d := match corr with | none => stuck | some (i, msg) => s!"projected event {i}: {msg}{stuck}"
-      let sp := match Spec.spec prop cx impl with
+      let sp := match specFor prop cx s.guardFired impl with
         | none => ("ok", "")
         | some (i, msg) => (s!"fail:{msg}", s!" spec: event {i} {(impl[i]?.map eventStr).getD ""}")
-      let spm := match Spec.spec prop cx model with
+      let spm := match specFor prop cx s.guardFired model with
         | none => "ok"
         | some (_, msg) => s!"fail:{msg}"
       s!"R {id} CORR={c} SPEC={sp.1} SPECM={spm} | {d}{sp.2}"
